@@ -1,6 +1,7 @@
 package main
 
 import (
+	"verif.local/mc/harness/c13"
 	"verif.local/mc/harness/c04"
 	"verif.local/mc/harness/c02"
 	"verif.local/mc/harness/c03"
@@ -18,6 +19,7 @@ import (
 )
 
 func init() {
+	register("C13", "fault_enumeration", c13.Run)
 	register("C04", "exploration", c04.Run04)
 	register("C11", "exploration", c04.Run11)
 	register("C16", "exploration", c04.Run16)
